@@ -75,6 +75,7 @@ type chainCfg struct {
 	vesting    map[int]int64 // account index -> original vesting amount of nund (continuous vesting)
 	dbBackend  string        // "memdb" or "goleveldb"
 	dbDir      string
+	extraCoins sdk.Coins // added to the genesis balance of account 0 (denominations outside the model; designated scenarios only)
 }
 
 type chain struct {
@@ -188,7 +189,11 @@ func newChain(cfg chainCfg) *chain {
 		} else {
 			genAccs = append(genAccs, authtypes.NewBaseAccount(ac.addr, nil, 0, 0))
 		}
-		bals = append(bals, banktypes.Balance{Address: ac.addr.String(), Coins: initialBalances()})
+		coins := initialBalances()
+		if i == 0 && !cfg.extraCoins.Empty() {
+			coins = coins.Add(cfg.extraCoins...)
+		}
+		bals = append(bals, banktypes.Balance{Address: ac.addr.String(), Coins: coins})
 	}
 	c.addrIdx[moduleAddr(enttypes.ModuleName).String()] = mEnt
 	c.addrIdx[moduleAddr(strtypes.ModuleName).String()] = mStream
